@@ -218,6 +218,8 @@ func (s *Script) render(decls []string, only int, incremental bool) string {
 				fmt.Fprintf(&b, "; ob %s\n", e.ob.ID)
 				if e.kind == evCheck {
 					fmt.Fprintf(&b, "(assert (not %s))\n", e.term)
+				} else if e.term != "" && e.term != "true" {
+					fmt.Fprintf(&b, "(assert %s)\n", e.term) // guarded reachability probe
 				}
 				fmt.Fprintf(&b, "(echo \"@@check %d\")\n(check-sat)\n", n)
 				if e.kind == evCheck && len(e.ob.Values) > 0 {
